@@ -163,6 +163,19 @@ func panicChannelScenario(mode string) *Desc {
 	return d
 }
 
+// panicSwallowedPairScenario: further action keys pressed on top of a held up/down pair are swallowed but count as held; when the
+// first pair is released they form a pair that was never "completed" - panic in that state must not act on it
+func panicSwallowedPairScenario(mode string) *Desc {
+	d := base("panic-swallowed-pair", mode)
+	d.Channel = 4
+	d.Mappings = []MapDesc{{Name: "M0", Keys: km{K1: {60, 0}}}}
+	acts(d, PA, "panic", OU, "octave_up", OD, "octave_down", CU, "channel_up", CD, "channel_down")
+	d.OctLo, d.OctHi = 0, 1
+	d.ChSet = []int{0, 3, 4}
+	d.FreeActions = true
+	return d
+}
+
 // panicAxisScenario: panic bound to a hat (both directions), interleaved with CC-learning, channel changes and a held note
 func panicAxisScenario(mode string) *Desc {
 	d := base("panic-axis", mode)
@@ -384,6 +397,7 @@ func jobsFor(prop, tier string) []job {
 		add(panicAxisScenario("no_repeat"), false, cap, "panic")
 		add(panicChannelScenario("interrupt"), false, cap, "panic")
 		add(panicChannelScenario("off"), false, cap, "panic")
+		add(panicSwallowedPairScenario("interrupt"), false, cap, "panic")
 	case "C14":
 		for _, d := range exitScenarios(big) {
 			add(d, true, cap, "exit")
